@@ -37,6 +37,11 @@ NEG_CMP = {"Eq": "NotEq", "NotEq": "Eq", "Lt": "GtE", "GtE": "Lt", "Gt": "LtE", 
            "Is": "IsNot", "IsNot": "Is", "In": "NotIn", "NotIn": "In"}
 
 MAX_INLINE_DEPTH = 6
+# functions of the operator module are the operators they name
+OPERATOR_CMP = {"operator.lt": "Lt", "operator.le": "LtE", "operator.gt": "Gt", "operator.ge": "GtE", "operator.eq": "Eq",
+                "operator.ne": "NotEq", "operator.is_": "Is", "operator.is_not": "IsNot"}
+OPERATOR_BIN = {"operator.add": "Add", "operator.sub": "Sub", "operator.mul": "Mult", "operator.truediv": "Div",
+                "operator.floordiv": "FloorDiv", "operator.mod": "Mod"}
 
 
 class Eff:
@@ -1516,6 +1521,12 @@ class Executor:
         if h == "glob":
             if ft[1] == "functools.partial" and args:
                 yield st, ("partial", args[0], tuple(args[1:]))
+                return
+            if ft[1] in OPERATOR_CMP and len(args) == 2 and not kwargs:
+                yield st, ("cmp", OPERATOR_CMP[ft[1]], args[0], args[1])
+                return
+            if ft[1] in OPERATOR_BIN and len(args) == 2 and not kwargs:
+                yield st, ("binop", OPERATOR_BIN[ft[1]], args[0], args[1])
                 return
             if ft[1] == "operator.methodcaller" and args and args[0][0] == "const" and not kwargs:
                 yield st, ("methodcaller", args[0][1], tuple(args[1:]))
